@@ -251,6 +251,12 @@ func checkC04(env *fw.Env, c C04Case) *fw.Failure {
 		b := ansList(plainSrv.ListUsers(ctx, storeT, modelT, lu, openfgav1.ConsistencyPreference_UNSPECIFIED))
 		if !(a.err || b.err) {
 			if f := mismatch("ListUsers", lu, a, b); f != nil {
+				// ListUsers' bookkeeping of exclusions below the queried relation loses or adds entries
+				// depending on evaluation order (recorded under C06); such a model cannot tell anything
+				// about contextual versus stored tuples
+				if semkit.ExclusionBelow(c.World.Model, lu.Object, lu.Relation) {
+					f.Signature = "C06/permitted-user-not-returned/nested-exclusion"
+				}
 				return f
 			}
 		}
